@@ -1,18 +1,18 @@
 /-
-  C20e — "everything above the loop API is the table of A.3 unchanged", formally (partial: see the list of covered
-  instructions at `covered`).
+  C20e — "everything above the loop API is the table of A.3 unchanged", formally.
 
   `View` (`Lemmas/GMeSame.lean`) is the part of a configuration the scheduler / screen / input instructions read and write:
   application state `A` (screen stack, screen objects, input subsystem, console output), the observable `log`, the framework
-  signal-id counter, the callbacks' return registers, the handler registrations.  `tI` translates the shared instructions
-  constructor by constructor.  `ResRel` relates the results of one step: both machines go on with equal views and the
-  *same instructions pushed* in front of their pending code; or both raise the same kind of exception from configurations
-  with equal views (where it lands differs: the catchers of the two loops differ — difference (ii)); or both skip to the
-  end of `_process_screen`'s `try`; or both halt with the same outcome.
+  signal-id counter, the callbacks' return registers, the handler registrations, the quit-callback registration.  `tI`
+  translates the shared instructions constructor by constructor.  `ResRel` relates the results of one step: both machines go
+  on with equal views and the *same instructions pushed* in front of their pending code; or both raise the same kind of
+  exception from configurations with equal views (where it lands differs: the catchers of the two loops differ — difference
+  (ii)); or both skip to the end of `_process_screen`'s `try`; or both halt with the same outcome.
 
   Side condition (difference (i)): `g.L.loops ≠ []` — on GLib `enqueue_signal` / `register_signal_source` raise `IndexError`
-  when no loop is left, on `MainLoop` they never raise.  Not covered (difference (iii)): `waitInput`, whose livelock test
-  reads `_force_quit` and the loop list on GLib and `_run_loop` on `MainLoop`.
+  when no loop is left, on `MainLoop` they never raise.  The single scheduler / input instruction excluded is `waitInput`
+  (difference (iii)): the test with which `InputHandler.wait_on_input` is modelled to spin for ever reads `_force_quit` and
+  the loop list on GLib and `_run_loop` on `MainLoop` — loop state that is not part of the view.
 -/
 import Simpleline.Lemmas.GMeSame
 
@@ -22,7 +22,13 @@ macro "vw" : tactic =>
   `(tactic| simp [Cfg.view, mview, push, Simpleline.push, Cfg.trace, Simpleline.Cfg.trace, Cfg.gtrace, Cfg.write,
       Simpleline.Cfg.write, Cfg.newSig, Simpleline.Cfg.newSig, newIH, Simpleline.newIH, *])
 
-/-- the instructions covered by `C20e_same_scheduler_partial` -/
+/-- the user actions that are calls of the scheduler / screen API (the others are calls of the loop API itself) -/
+def schedAct : Act → Bool
+  | .schedule .. | .push .. | .pushModal .. | .replace .. | .closeDirect | .closeSig .. | .redrawSig .. | .schedRedraw
+  | .getUserInput .. => true
+  | _ => false
+
+/-- the instructions covered by `C20e_same_scheduler`: every shared instruction above the loop API except `waitInput` -/
 def covered : Instr → Bool
   -- screen stack / scheduler
   | .pushModal .. | .modalRet .. | .closeScreen .. | .closeScreen2 .. | .processScreen | .afterSetupFail ..
@@ -33,9 +39,11 @@ def covered : Instr → Bool
   | .getInput .. | .getInput2 .. | .blockingInput .. | .inputReady .. | .processInput .. | .classify .. | .catchPI ..
   | .endPI => true
   -- logging
-  | .note .. | .hret .. => true
+  | .note .. | .hret .. | .quitCb => true
   -- instructions that call the loop API (enqueue / redraw / register_signal_source)
-  | .afterSetup .. | .afterSetup2 .. | .closeScreen3 .. | .afterQuit .. | .countAndAct .. => true
+  | .afterSetup .. | .afterSetup2 .. | .closeScreen3 .. | .afterQuit .. | .countAndAct .. | .scrRet .. | .inputReceived .. => true
+  -- the scheduler's user actions
+  | .act a => schedAct a
   | _ => false
 
 theorem startRequest_rel (rg : List Instr) (rm : List Simpleline.Instr) (gc : Cfg) (mc : Simpleline.Cfg) (ih : Nat) (r : Src) (t : Str)
@@ -45,7 +53,7 @@ theorem startRequest_rel (rg : List Instr) (rm : List Simpleline.Instr) (gc : Cf
   obtain ⟨gc, gL, gA, gl, gt, gs, g1, g2, g3, g4, g5⟩ := gc
   obtain ⟨mc, mL, mA, ml, mt, ms, m1, m2, m3, m4, m5⟩ := mc
   simp only [Cfg.view, mview, View.mk.injEq] at hv
-  obtain ⟨rfl, rfl, rfl, rfl, rfl, rfl, rfl, rfl, hh⟩ := hv
+  obtain ⟨rfl, rfl, rfl, rfl, rfl, rfl, rfl, rfl, hh, hq⟩ := hv
   simp only at hgc hmc
   subst hgc hmc
   simp only [startRequest, Simpleline.startRequest]
@@ -63,20 +71,85 @@ theorem redraw_rel (rg : List Instr) (rm : List Simpleline.Instr) (gc : Cfg) (mc
   refine ResRel.ok [] ?_ (by simpa [hgc] using h3) (by simpa [hmc] using (m_redraw_view mc).2) (by simp)
   rw [h2, (m_redraw_view mc).1, hv, show gc.nextSid = mc.nextSid from congrArg View.nextSid hv]
 
-/-- **The scheduler / screen / input instructions are the same functions of the application state on both machines**
-(partial: the instructions listed at `covered`).  Take a configuration `g` of the GLib machine and a configuration `m` of
-the `MainLoop` machine with the same view, whose next instructions correspond (`i` and `tI i`), `i` covered, a loop left
-on the GLib side.  Then the results of the step correspond (`ResRel`): equal views again — same screen stack, same screen
-objects, same input state, same console output, same log — and the same instructions pushed in front of the respective
-rest; or the same kind of exception raised; or the same halt. -/
-theorem C20e_same_scheduler_partial (P : Prog) (g : Cfg) (m : Simpleline.Cfg) (i : Instr) (rg : List Instr)
+theorem enqueue_rel (rg : List Instr) (rm : List Simpleline.Instr) (gc : Cfg) (mc : Simpleline.Cfg) (s : Sig) (hv : gc.view = mview mc)
+    (hgc : gc.code = rg) (hmc : mc.code = rm) (hl : gc.L.loops ≠ []) :
+    ResRel rg rm (gc.enqueue s) (.ok (mc.enqueue s)) := by
+  obtain ⟨c', h1, h2, h3, _⟩ := enqueue_ok gc s hl
+  rw [h1]
+  refine ResRel.ok [] ?_ (by simpa [hgc] using h3) (by simpa [hmc] using (m_enqueue_view mc s).2) (by simp)
+  rw [h2, (m_enqueue_view mc s).1, hv]
+
+/-- `do let c ← redraw; pure (f c)` against `f' (redraw …)` -/
+theorem redraw_bind_rel (rg : List Instr) (rm : List Simpleline.Instr) (gc : Cfg) (mc : Simpleline.Cfg) (hv : gc.view = mview mc)
+    (hgc : gc.code = rg) (hmc : mc.code = rm) (hl : gc.L.loops ≠ []) (f : Cfg → Cfg) (f' : Simpleline.Cfg → Simpleline.Cfg)
+    (hf : ∀ c m, c.view = mview m → (f c).view = mview (f' m) ∧ (f c).code = c.code ∧ (f' m).code = m.code) :
+    ResRel rg rm (gc.redraw >>= fun c => pure (f c)) (.ok (f' mc.redraw)) := by
+  obtain ⟨c', h1, h2, h3, _⟩ := redraw_ok gc hl
+  rw [h1]
+  have hv' : c'.view = mview mc.redraw := by
+    rw [h2, (m_redraw_view mc).1, hv, show gc.nextSid = mc.nextSid from congrArg View.nextSid hv]
+  obtain ⟨k1, k2, k3⟩ := hf c' mc.redraw hv'
+  exact ResRel.ok [] k1 (by simp [k2, h3, hgc]) (by simp [k3, (m_redraw_view mc).2, hmc]) (by simp)
+
+/-- one turn of `InputThreadManager._input_received_handler`'s loop over the other pending requests, on either machine -/
+abbrev foldG : Cfg → Nat → Except (Outcome × Cfg) Cfg := fun c t =>
+  (c.newSig Cls.inputReady 0 (c.A.reqs.getD t default).requester [] (c.A.reqs.getD t default).ih false).snd.enqueue
+    (c.newSig Cls.inputReady 0 (c.A.reqs.getD t default).requester [] (c.A.reqs.getD t default).ih false).fst
+abbrev foldM : Simpleline.Cfg → Nat → Simpleline.Cfg := fun c t =>
+  (c.newSig Cls.inputReady 0 (c.A.reqs.getD t default).requester [] (c.A.reqs.getD t default).ih false).snd.enqueue
+    (c.newSig Cls.inputReady 0 (c.A.reqs.getD t default).requester [] (c.A.reqs.getD t default).ih false).fst
+
+/-- with a loop left every `enqueue_signal` of the fold succeeds on GLib, and the two folds keep the views equal -/
+theorem fold_rel : ∀ (l : List Nat) (gc : Cfg) (mc : Simpleline.Cfg), gc.view = mview mc → gc.L.loops ≠ [] →
+    ∃ gc', l.foldlM foldG gc = .ok gc' ∧ gc'.view = mview (l.foldl foldM mc) ∧ gc'.code = gc.code ∧
+      (l.foldl foldM mc).code = mc.code
+  | [], gc, mc, hv, _ => ⟨gc, rfl, hv, rfl, rfl⟩
+  | t :: l, gc, mc, hv, hl => by
+    obtain ⟨c1, h1, h2, h3, h4⟩ := enqueue_ok
+      (gc.newSig Cls.inputReady 0 (gc.A.reqs.getD t default).requester [] (gc.A.reqs.getD t default).ih false).snd
+      (gc.newSig Cls.inputReady 0 (gc.A.reqs.getD t default).requester [] (gc.A.reqs.getD t default).ih false).fst hl
+    have hm := m_enqueue_view
+      (mc.newSig Cls.inputReady 0 (mc.A.reqs.getD t default).requester [] (mc.A.reqs.getD t default).ih false).snd
+      (mc.newSig Cls.inputReady 0 (mc.A.reqs.getD t default).requester [] (mc.A.reqs.getD t default).ih false).fst
+    have hv1 : c1.view = mview (foldM mc t) := by
+      rw [h2, hm.1]
+      have := hv
+      simp only [Cfg.view, mview, View.mk.injEq] at this
+      obtain ⟨e1, e2, e3, e4, e5, e6, e7, e8, e9, e10⟩ := this
+      simp [Cfg.view, mview, Cfg.newSig, Simpleline.Cfg.newSig, *]
+    obtain ⟨c2, k1, k2, k3, k4⟩ := fold_rel l c1 (foldM mc t) hv1 (by rw [h4]; exact hl)
+    refine ⟨c2, ?_, k2, by rw [k3, h3]; rfl, by rw [List.foldl_cons, k4, hm.2]; rfl⟩
+    rw [List.foldlM_cons]
+    show (foldG gc t >>= fun c => List.foldlM foldG c l) = _
+    rw [show foldG gc t = Except.ok c1 from h1]
+    exact k1
+
+/-- **The scheduler / screen / input instructions are the same functions of the application state on both machines.**
+Take a configuration `g` of the GLib machine and a configuration `m` of the `MainLoop` machine with the same view, whose next
+instructions correspond (`i` and `tI i`), `i` covered, a loop left on the GLib side.  Then the results of the step
+correspond (`ResRel`): equal views again — same screen stack, same screen objects, same input state, same console output,
+same log, same registrations — and the same instructions pushed in front of the respective rest; or the same kind of
+exception raised; or the same halt.
+
+`covered` is every instruction above the loop API that the two machines share — the whole scheduler (`pushModal`, `modalRet`,
+`closeScreen`, `closeScreen2`, `closeScreen3`, `processScreen`, `afterSetup`, `afterSetupFail`, `afterSetup2`, `identCheck`,
+`catchPS`, `drawScreen`, `catchDraw`, `maybeInput`), the screen callbacks and printing (`callScr`, `scrRet`, `printWidget`,
+`printLines`), the input pipeline (`getInput`, `getInput2`, `blockingInput`, `inputReceived`, `inputReady`, `processInput`,
+`classify`, `catchPI`, `countAndAct`, `endPI`, `afterQuit`), logging and the epilogue of `run()` (`note`, `hret`, `quitCb`),
+and the user actions that call the scheduler / screen API (`schedule`, `push`, `pushModal`, `replace`, `closeDirect`,
+`closeSig`, `redrawSig`, `schedRedraw`, `getUserInput`) — **with the single exception of `waitInput`**: the model of
+`wait_on_input` detects the spinning wait by a test on loop state (`_force_quit` and the loop list on GLib, `_run_loop` on
+`MainLoop`), which is not a function of the view.  Not in the scope of the statement, by definition: the loop group itself
+(the GLib / MainLoop loop instructions, `apprun`, `kill`, `callH`, the loop API entry points `procWait` / `newLoop` /
+`closeLoop` and the user actions that call the loop API directly), which is what differs between the two machines. -/
+theorem C20e_same_scheduler (P : Prog) (g : Cfg) (m : Simpleline.Cfg) (i : Instr) (rg : List Instr)
     (rm : List Simpleline.Instr) (hi : covered i = true) (hg : g.code = i :: rg) (hm : m.code = tI i :: rm)
     (hv : g.view = mview m) (hl : g.L.loops ≠ []) :
     ResRel rg rm (step P g) (Simpleline.step P m) := by
   obtain ⟨gc, gL, gA, gl, gt, gs, g1, g2, g3, g4, g5⟩ := g
   obtain ⟨mc, mL, mA, ml, mt, ms, m1, m2, m3, m4, m5⟩ := m
   simp only [Cfg.view, mview, View.mk.injEq] at hv
-  obtain ⟨rfl, rfl, rfl, rfl, rfl, rfl, rfl, rfl, hh⟩ := hv
+  obtain ⟨rfl, rfl, rfl, rfl, rfl, rfl, rfl, rfl, hh, hq⟩ := hv
   simp only at hg hm hl
   subst hg hm
   cases i <;> simp only [covered, Bool.false_eq_true] at hi <;> simp only [tI, step, Simpleline.step]
@@ -212,8 +285,92 @@ theorem C20e_same_scheduler_partial (P : Prog) (g : Cfg) (m : Simpleline.Cfg) (i
       ({ code := rg, L := gL, A := gA, log := gl, tr := gt, nextSid := gs, retSetup := g1, retPromptNone := g2, retInput := g3, retKey := g4, retAction := g5 } : Cfg) (.scr top.screen) hl
     simp only [h1]
     simp only [Cfg.view, View.mk.injEq] at h2
-    obtain ⟨e1, e2, e3, e4, e5, e6, e7, e8, e9⟩ := h2
+    obtain ⟨e1, e2, e3, e4, e5, e6, e7, e8, e9, e10⟩ := h2
     exact ResRel.ok [.callScr top.screen .refresh top.args none, .identCheck top, .catchPS] (by vw) (by simp [push, Cfg.trace, h3]) rfl (by simp [mapped])
+  case quitCb =>
+    rw [hq]
+    cases mL.quitCb with
+    | none => exact ResRel.ok [] (by vw) rfl rfl (by simp)
+    | some d =>
+      have := emit_views P ({ code := rg, L := gL, A := gA, log := gl, tr := gt, nextSid := gs, retSetup := g1, retPromptNone := g2, retInput := g3, retKey := g4, retAction := g5 } : Cfg)
+        ({ code := rm, L := mL, A := gA, log := gl, tr := mt, nextSid := gs, retSetup := g1, retPromptNone := g2, retInput := g3, retKey := g4, retAction := g5 } : Simpleline.Cfg) (.quitcb d) (by vw)
+      exact ResRel.ok [] this.1 this.2.1 this.2.2.1 (by simp)
+  case scrRet scr cb ret key =>
+    cases cb with
+    | setup =>
+      simp only
+      by_cases h : ret = .failBefore
+      · simp only [if_pos h]; exact ResRel.ok [] (by vw) rfl rfl (by simp)
+      · simp only [if_neg h]
+        obtain ⟨c', h1, h2, h3, _⟩ := regSource_ok
+          ({ code := rg, L := gL, A := gA.setScr scr fun s => { s with ready := true }, log := gl, tr := gt, nextSid := gs, retSetup := g1, retPromptNone := g2, retInput := g3, retKey := g4, retAction := g5 } : Cfg) (.scr scr) hl
+        simp only [h1]
+        simp only [Cfg.view, View.mk.injEq] at h2
+        obtain ⟨e1, e2, e3, e4, e5, e6, e7, e8, e9, e10⟩ := h2
+        exact ResRel.ok [] (by vw) (by simpa using h3) rfl (by simp)
+    | prompt => exact ResRel.ok [] (by vw) rfl rfl (by simp)
+    | input => exact ResRel.ok [] (by vw) rfl rfl (by simp)
+    | refresh => exact ResRel.ok [] (by vw) rfl rfl (by simp)
+    | «show» => exact ResRel.ok [] (by vw) rfl rfl (by simp)
+    | closed => exact ResRel.ok [] (by vw) rfl rfl (by simp)
+  case act a =>
+    cases a <;> simp only [schedAct, Bool.false_eq_true] at hi <;> simp only [doAct, Simpleline.doAct]
+    case schedule scr args =>
+      by_cases h : gA.firstScheduled = true
+      · simp only [Cfg.trace, Simpleline.Cfg.trace, h, if_true]; exact ResRel.ok [] (by vw) rfl rfl (by simp)
+      · simp only [Cfg.trace, Simpleline.Cfg.trace, h]
+        refine redraw_bind_rel rg rm _ _ (by vw) rfl rfl hl (fun c => { c with A := { c.A with firstScheduled := true } })
+          (fun m => { m with A := { m.A with firstScheduled := true } }) ?_
+        intro c m hcm
+        simp only [Cfg.view, mview, View.mk.injEq] at hcm ⊢
+        obtain ⟨e1, e2, e3, e4, e5, e6, e7, e8, e9, e10⟩ := hcm
+        simp [*]
+    case push scr args => exact redraw_rel rg rm _ _ (by vw) rfl rfl hl
+    case pushModal scr args => exact ResRel.ok [_, _] (by vw) rfl rfl (by simp [mapped])
+    case replace scr args =>
+      cases hs : gA.stack.getLast? with
+      | none => exact ResRel.raise _ [] (by vw) rfl rfl
+      | some old => exact redraw_rel rg rm _ _ (by vw) rfl rfl hl
+    case closeDirect => exact ResRel.ok [_] (by vw) rfl rfl (by simp [mapped])
+    case closeSig scr => exact enqueue_rel rg rm _ _ _ (by vw) rfl rfl hl
+    case redrawSig scr => exact enqueue_rel rg rm _ _ _ (by vw) rfl rfl hl
+    case schedRedraw => exact redraw_rel rg rm _ _ (by vw) rfl rfl hl
+    case getUserInput scr hidden => exact ResRel.ok [_, _] (by vw) rfl rfl (by simp [mapped])
+  case inputReceived sg =>
+    cases hs : gA.inputStack.getLast? with
+    | none => exact ResRel.raise _ [] (by vw) rfl rfl
+    | some r =>
+      simp only
+      obtain ⟨c1, h1, h2, h3, h4⟩ := enqueue_ok
+        (({ code := rg, L := gL, A := gA, log := gl, tr := gt, nextSid := gs, retSetup := g1, retPromptNone := g2, retInput := g3, retKey := g4, retAction := g5 } : Cfg).newSig
+          Cls.inputReady 0 (gA.reqs.getD r default).requester sg.line (gA.reqs.getD r default).ih true).snd
+        (({ code := rg, L := gL, A := gA, log := gl, tr := gt, nextSid := gs, retSetup := g1, retPromptNone := g2, retInput := g3, retKey := g4, retAction := g5 } : Cfg).newSig
+          Cls.inputReady 0 (gA.reqs.getD r default).requester sg.line (gA.reqs.getD r default).ih true).fst hl
+      have hm := m_enqueue_view
+        (({ code := rm, L := mL, A := gA, log := gl, tr := mt, nextSid := gs, retSetup := g1, retPromptNone := g2, retInput := g3, retKey := g4, retAction := g5 } : Simpleline.Cfg).newSig
+          Cls.inputReady 0 (gA.reqs.getD r default).requester sg.line (gA.reqs.getD r default).ih true).snd
+        (({ code := rm, L := mL, A := gA, log := gl, tr := mt, nextSid := gs, retSetup := g1, retPromptNone := g2, retInput := g3, retKey := g4, retAction := g5 } : Simpleline.Cfg).newSig
+          Cls.inputReady 0 (gA.reqs.getD r default).requester sg.line (gA.reqs.getD r default).ih true).fst
+      have hv1 := h2
+      rw [show (({ code := rg, L := gL, A := gA, log := gl, tr := gt, nextSid := gs, retSetup := g1, retPromptNone := g2, retInput := g3, retKey := g4, retAction := g5 } : Cfg).newSig
+          Cls.inputReady 0 (gA.reqs.getD r default).requester sg.line (gA.reqs.getD r default).ih true).snd.view = mview _ from (by rw [hm.1]; vw)] at hv1
+      obtain ⟨c2, k1, k2, k3, k4⟩ := fold_rel gA.inputStack.dropLast c1 _ hv1 (by rw [h4]; exact hl)
+      simp only [h1]
+      show ResRel rg rm ((List.foldlM foldG c1 gA.inputStack.dropLast) >>= _) _
+      rw [k1]
+      generalize hM : List.foldl foldM _ gA.inputStack.dropLast = mF at k2 k4
+      have hM' : ∀ (X : Simpleline.Cfg), X = mF → ResRel rg rm
+          (pure { c2 with A := { c2.A with inputStack := [], processing := false } })
+          (Except.ok ({ X with A := { X.A with inputStack := [], processing := false } } : Simpleline.Cfg)) := by
+        intro X hX
+        subst hX
+        simp only [Cfg.view, mview, View.mk.injEq] at k2
+        obtain ⟨e1, e2, e3, e4, e5, e6, e7, e8, e9, e10⟩ := k2
+        refine ResRel.ok [] (by vw) ?_ ?_ (by simp)
+        · simp [k3, h3, Cfg.newSig]
+        · show X.code = [].map tI ++ rm
+          rw [k4, hm.2]; rfl
+      first | exact hM' _ hM | exact hM' _ rfl
   case countAndAct scr =>
     generalize gA.setScr scr _ = A'
     cases hs : A'.stack.getLast? with
@@ -256,7 +413,7 @@ theorem C20e_same_scheduler_partial (P : Prog) (g : Cfg) (m : Simpleline.Cfg) (i
       · simp only [if_neg h0]; exact ResRel.ok [] (by vw) rfl rfl (by simp)
 
 /-- the two machines start with the same view (same start-up actions, same registrations, same typed lines), with a loop
-on the GLib side — the hypotheses of `C20e_same_scheduler_partial` are satisfiable, and stay so as long as the loop-level
+on the GLib side — the hypotheses of `C20e_same_scheduler` are satisfiable, and stay so as long as the loop-level
 instructions keep the views equal -/
 theorem C20e_init_same_view (init : List Act) (hs : List (Cls × HRef × Option Nat)) (q : Option Nat) (stdin : List Str) :
     (initCfg init hs q stdin).view = mview (Simpleline.initCfg init hs q stdin) ∧ (initCfg init hs q stdin).L.loops ≠ [] ∧
@@ -265,11 +422,8 @@ theorem C20e_init_same_view (init : List Act) (hs : List (Cls × HRef × Option 
   simp [initCfg, Simpleline.initCfg, tI, Function.comp]
 
 /-
-  NOT DONE (time): `C20e_batch_dispatch_order` (the history-level order of the dispatch events of one batch; the two missing
-  invariants are described in `Props/C20b.lean`).  Not covered by `C20e_same_scheduler_partial`: `scrRet` (the `setup` case
-  calls `register_signal_source`; same pattern as `afterSetup2`), `inputReceived` (a fold of `enqueue_signal` calls; same
-  pattern as `redraw_rel`), the scheduler's user actions `act (schedule | push | replace | closeDirect | closeSig | redrawSig |
-  schedRedraw | pushModal | getUserInput)`, and `waitInput` (difference (iii)).
+  NOT DONE: `C20e_batch_dispatch_order` (the history-level order of the dispatch events of one batch; the two missing
+  invariants are described in `Props/C20b.lean`).
 -/
 
 end Simpleline.G
